@@ -46,8 +46,18 @@ class Transport:
 
 
 class Fut:
+    """asyncio.Future as far as the library uses it: a result can be set once"""
+
+    def __init__(self):
+        self._done = False
+
+    def done(self):
+        return self._done
+
     def set_result(self, r):
-        pass
+        if self._done:
+            raise asyncio.InvalidStateError("invalid state")
+        self._done = True
 
 
 class Loop:
@@ -757,3 +767,25 @@ async def reset_from_another_task_during_the_handshake_leaks_nothing(k: int):
         ensures("background-tasks-of-the-abandoned-connection-are-cancelled", tasks_cancelled("SPA:"))
     ensures("at-most-one-endpoint-per-attempt", len(Net.endpoints) <= 1)
     cover("reset-before-the-first-request", k <= 2)
+
+
+# ------------------------------------------------------- a socket error before the reset does not get in its way
+@harness(prop="C10", target="geckolib.driver.async_udp_protocol:GeckoAsyncUdpProtocol.error_received", uses=["engine_step", "transfer_step"],
+         name="reset_after_a_socket_error_still_releases_everything")
+async def reset_after_a_socket_error_still_releases_everything(errors: int):
+    """the OS reports a failed send (error_received; the socket stays open) any number of times, then the connection is reset"""
+    requires(both(0 <= errors, errors <= 2))
+    errors = concrete_cases(errors, 0, 2)
+    arm(-1)
+    tm = AsyncTasks()
+    spa = GeckoAsyncSpa(b"IOSx", Descr(), tm, events)
+    on_spa = ClientObserver()
+    spa.watch(on_spa)
+    await spa.connect()
+    for i in range(errors):
+        if spa._protocol is not None:
+            spa._protocol.error_received(OSError("network is unreachable"))
+    await spa.disconnect()
+    ensures("every-endpoint-of-the-abandoned-connection-is-closed", all_closed())
+    ensures("background-tasks-of-the-connection-are-cancelled", tasks_cancelled("SPA:"))
+    ensures("connection-state-released", both(spa._protocol is None, spa._transport is None, not spa.is_connected, not spa.has_observers))
